@@ -310,6 +310,16 @@ func Depth1() []*Spec {
 	out = append(out, OneOfSpecs()...)
 	out = append(out, ScopeSpecs()...)
 	out = append(out, MapObjAll("All"), MapObjColl("Coll"), MapObjTyped("Typed"))
+	// presence rules that name a defaulted property: the default counts as present whatever is visited first
+	out = append(out, &Spec{Kind: KObject, ID: "Dep", Props: []Prop{
+		{Name: "a", Type: &Spec{Kind: KString}, Default: Str("\"x\"")},
+		{Name: "b", Type: &Spec{Kind: KString}, Conflicts: []string{"a"}},
+		{Name: "c", Type: &Spec{Kind: KInt}, RequiredIf: []string{"a"}},
+	}}, &Spec{Kind: KObject, ID: "Dep2", Props: []Prop{
+		{Name: "lvl", Type: &Spec{Kind: KString}, Default: Str("\"info\"")},
+		{Name: "quiet", Type: &Spec{Kind: KBool}, Conflicts: []string{"lvl"}},
+		{Name: "user", Type: &Spec{Kind: KString}, RequiredIfNot: []string{"lvl"}},
+	}})
 	out = append(out, DeepShapeSpec()) // three levels of by-value struct nesting with defaults at every level
 	out = append(out, OneOfAllSpecs()...)
 	return out
